@@ -9,6 +9,7 @@ from litex.soc.interconnect.csr_eventmanager import (EventManager, EventSourcePu
 
 from lib.collect import Collector, rng_for, h
 from lib.bench.kernel import Bench, umask
+from props import c15_clients
 
 LEVEL = "exploration"
 RULE = ("one case = 1..2 event managers with 1..12 sources of random kinds (pulse / rising / falling / level) behind a real CSR bank "
@@ -17,13 +18,24 @@ RULE = ("one case = 1..2 event managers with 1..12 sources of random kinds (puls
         "register. The offset between a trigger and the clear of the same source is swept over -4..+4 cycles (the lost-interrupt window) on "
         "top of random traffic. Every cycle: irq == |(pending & enable), status == raw level (0 for pulse), pending follows the reference "
         "model (set has priority over clear), every cycle of a source's clear input is attributed to one software write-one of its bit "
-        "and to nothing else. Non-trivial = >= 5 clears and >= 5 events; distinct = distinct case digests")
+        "and to nothing else. Non-trivial = >= 5 clears and >= 5 events; distinct = distinct case digests. Class 'client': the real "
+        "clients named by the property (UART tx/rx, Timer zero, GPIOIn/GPIOTristate edge/change interrupts) behind a CSR bank, driven by a "
+        "software model (main loop + interrupt handler following LiteX's own driver protocol, handler latency 0..15 cycles); same "
+        "per-cycle invariants on the client's sources, the client's trigger against its documented meaning, and end to end: work the "
+        "interrupt announces is never left waiting with irq low while software is outside its handler, bytes read/written exactly once "
+        "and in order, every expiry / pin event handed to the handler once")
 ASSUMPTIONS = ["migen tracer shim (names only)", "the documented clear input of an event source is observed to time 'coinciding with the clear'",
                "software clears with whole-register accessor writes in the main classes"]
 FLOORS = {"quick": {"cycles_checked": 150000, "events_set": 8000, "clears_attributed": 3000, "trigger_clear_coincidences": 300,
-                    "irq_checks": 150000, "n_offsets_swept": 9},
+                    "irq_checks": 150000, "n_offsets_swept": 9, "client_cycles": 25000, "client_isr_entries": 800,
+                    "client_events": 1500, "client_stranded_checks": 8000, "client_uart_rx_bytes": 500, "client_uart_tx_bytes": 500,
+                    "client_timer_expiries_acknowledged": 300, "client_gpio_trigger_checks": 40000,
+                    "client_trigger_clear_coincidences": 60},
           "thorough": {"cycles_checked": 3000000, "events_set": 150000, "clears_attributed": 60000, "trigger_clear_coincidences": 6000,
-                       "irq_checks": 3000000, "n_offsets_swept": 9}}
+                       "irq_checks": 3000000, "n_offsets_swept": 9, "client_cycles": 500000, "client_isr_entries": 16000,
+                       "client_events": 30000, "client_stranded_checks": 160000, "client_uart_rx_bytes": 10000,
+                       "client_uart_tx_bytes": 10000, "client_timer_expiries_acknowledged": 6000,
+                       "client_gpio_trigger_checks": 800000, "client_trigger_clear_coincidences": 1200}}
 SHARD_TIMEOUT = {"quick": 900, "thorough": 3000}
 N_SAMPLES = 3
 
@@ -35,7 +47,11 @@ def plan(tier, seed):
         cases.append({"dw": [8, 32][k % 2], "ordering": ["big", "little"][(k // 2) % 2], "offset": (k // 4) % 9 - 4,
                       "cls": "partial-word" if k % 9 == 8 else "accessor", "seed": "%d/C15/%d" % (seed, k)})
     ns = 48 if tier == "quick" else 160
-    return [{"id": "ev%03d" % i, "cls": "event", "cases": cases[i::ns]} for i in range(ns)]
+    shards = [{"id": "ev%03d" % i, "cls": "event", "cases": cases[i::ns]} for i in range(ns)]
+    cc = c15_clients.plan_cases(tier, seed)
+    nc = 16 if tier == "quick" else 64
+    shards += [{"id": "client%02d" % i, "cls": "client", "cases": cc[i::nc]} for i in range(nc)]
+    return shards
 
 
 def run_case(case):
@@ -266,6 +282,9 @@ def run_case(case):
 def run_shard(shard):
     col = Collector(shard["cls"])
     for case in shard["cases"]:
+        if "client" in case:
+            col.guard(case, c15_clients.run_client_case, col, case)
+            continue
         r = col.guard(case, run_case, case)
         if r is None:
             continue
